@@ -117,6 +117,60 @@ Qed.
 
 End Mass.
 
+(* ------------------------------------------------------------------ expectation *)
+Lemma expect_ret : forall A (x : A) g, expect (ret x) g == g x.
+Proof. intros. unfold expect, ret. cbn [sumf fst snd]. ring. Qed.
+
+Lemma expect_app : forall A (d1 d2 : dist A) g, expect (d1 ++ d2) g == expect d1 g + expect d2 g.
+Proof. intros. apply sumf_app. Qed.
+
+Lemma expect_scale : forall A p (d : dist A) g, expect (scale p d) g == p * expect d g.
+Proof.
+  intros A p d g. unfold expect, scale. rewrite sumf_map. cbn [fst snd]. rewrite <- sumf_scal.
+  apply sumf_ext. intros y _. ring.
+Qed.
+
+Lemma expect_cons : forall A (x : A) p d g, expect ((x, p) :: d) g = p * g x + expect d g.
+Proof. reflexivity. Qed.
+
+Lemma expect_bind : forall A B (d : dist A) (f : A -> dist B) g,
+  expect (bind d f) g == expect d (fun x => expect (f x) g).
+Proof.
+  intros A B d f g. unfold bind. induction d as [|[x p] d IH]; [reflexivity|].
+  cbn [flat_map fst snd]. rewrite expect_app, IH, expect_scale, expect_cons. reflexivity.
+Qed.
+
+Lemma expect_ext : forall A (d : dist A) g h, (forall x, In x (map fst d) -> g x == h x) -> expect d g == expect d h.
+Proof.
+  intros A d g h H. unfold expect. apply sumf_ext. intros xp Hx. rewrite (H (fst xp) (in_map fst d xp Hx)). reflexivity.
+Qed.
+
+Lemma mass_expect : forall A (eqb : A -> A -> bool) (d : dist A) x, mass eqb d x == expect d (fun y => ind (eqb y x)).
+Proof. intros. unfold mass, expect. apply sumf_ext. intros yp _. ring. Qed.
+
+(* sums over a list through its ranks *)
+Lemma map_nth_seq : forall A (l : list A) d, map (fun k => nth k l d) (seq 0 (length l)) = l.
+Proof.
+  intros A. induction l as [|x l IH]; intros d; [reflexivity|].
+  cbn [length seq map nth]. f_equal. rewrite <- seq_shift, map_map. cbn [nth]. apply IH.
+Qed.
+
+Lemma sumf_ranks : forall A (h : A -> Q) (l : list A) d,
+  sumf (fun k => h (nth (k mod length l) l d)) (seq 0 (length l)) == sumf h l.
+Proof.
+  intros A h l d. transitivity (sumf h (map (fun k => nth k l d) (seq 0 (length l)))); [|rewrite map_nth_seq; reflexivity].
+  rewrite sumf_map. apply sumf_ext. intros k Hk. apply in_seq in Hk. rewrite Nat.mod_small; [reflexivity | lia].
+Qed.
+
+Lemma sumf_single : forall (g : nat -> Q) j l, NoDup l -> In j l -> (forall k, In k l -> k <> j -> g k == 0) -> sumf g l == g j.
+Proof.
+  intros g j. induction l as [|x l IH]; intros Hnd Hin Hz; [destruct Hin|].
+  inversion Hnd as [|? ? Hx Hnd']; subst. cbn [sumf]. destruct Hin as [->|Hin].
+  - rewrite sumf_zero; [ring|]. intros k Hk. apply Hz; [right; exact Hk|]. intros ->. contradiction.
+  - rewrite (Hz x (or_introl eq_refl)); [|intros ->; contradiction].
+    rewrite IH; [ring | exact Hnd' | exact Hin|]. intros k Hk. apply Hz. right. exact Hk.
+Qed.
+
 (* ------------------------------------------------------------------ expectation depends only on the masses *)
 Section Expect.
 Context {A : Type} (eqb : A -> A -> bool).
